@@ -608,3 +608,65 @@ package statsd
 //@   ensures  result1 == nil ==> result0 != nil
 //@   modifies everything
 //@   preserves statsd.HttpForwarderHandlerV2
+
+// ---- worker.go / flusher.go / aggregator.go (C01): one shard, one goroutine, one order --------------------------
+// (Assumed: the process-command channel is never closed.) The worker's loop is the only code that touches its aggregator: every map taken from the queue is merged into the
+// aggregate exactly once, every process command is executed exactly once; nothing else happens to the aggregate.
+//@ func (*worker).work
+//@   requires w != nil && w.aggr != nil
+//@   recvsite assumes [processCommand] delivered && val != nil && val.f != nil && val.done != nil
+//@   callsite ReceiveMap requires arg0 == lastreceived(w.metricMapQueue) && calls(ReceiveMap) + 1 == received(w.metricMapQueue)
+//@   callsite executeProcess requires cmd == lastreceived(w.processChan) && calls(executeProcess) + 1 == received(w.processChan)
+//@   loop 1 invariant w.aggr != nil && calls(ReceiveMap) == received(w.metricMapQueue) && calls(executeProcess) == received(w.processChan)
+//@   ensures  calls(ReceiveMap) == received(w.metricMapQueue) && calls(executeProcess) == received(w.processChan)
+//@   modifies everything
+//@   preserves statsd.worker
+//@ func (Aggregator).ReceiveMap
+//@   trusted
+//@   modifies everything
+//@   preserves statsd.worker
+// executeProcess runs the command's function once on this worker's aggregator, then signals completion once.
+//@ functype DispatcherProcessFunc(workerId, aggr)
+//@   requires aggr != nil
+//@   modifies everything
+//@   preserves statsd.worker, statsd.processCommand
+//@ functype doneFn() sig func()
+//@   modifies everything
+//@   preserves statsd.worker
+//@ func (*worker).executeProcess
+//@   requires w != nil && w.aggr != nil && cmd != nil && cmd.f != nil && cmd.done != nil
+//@   callsite f requires arg0 == w.id && arg1 == w.aggr && calls(done) == 0
+//@   callsite done requires calls(f) == 1
+//@   ensures  calls(f) == 1 && calls(done) == 1
+//@   modifies everything
+//@   preserves statsd.worker
+
+// Process hands exactly the aggregate to the callback, once.
+//@ functype ProcessFunc(m)
+//@   modifies everything
+//@   preserves statsd.MetricAggregator
+//@ func (*MetricAggregator).Process
+//@   requires a != nil && f != nil
+//@   callsite f requires arg0 == a.metricMap
+//@   ensures  calls(f) == 1
+//@   modifies everything
+//@   preserves statsd.MetricAggregator
+
+// The flusher's per-aggregator step: Flush, then Process (hand-over to the backends), then Reset -- each exactly once,
+// in this order, on the same aggregator, inside one process command (so no merge can fall between them on that shard).
+//@ func (*MetricFlusher).flushData$1
+//@   captures statser != nil
+//@   callsite Flush requires calls(aggr.Flush) == 0 && calls(aggr.Process) == 0 && calls(aggr.Reset) == 0 && arg0 == flushInterval
+//@   callsite Process requires calls(aggr.Flush) == 1 && calls(aggr.Process) == 0 && calls(aggr.Reset) == 0
+//@   callsite Reset requires calls(aggr.Flush) == 1 && calls(aggr.Process) == 1 && calls(aggr.Reset) == 0
+//@   ensures  calls(aggr.Flush) == 1 && calls(aggr.Process) == 1 && calls(aggr.Reset) == 1
+//@   modifies everything
+//@ func (Aggregator).Flush
+//@   trusted
+//@   modifies everything
+//@ func (Aggregator).Process
+//@   trusted
+//@   modifies everything
+//@ func (Aggregator).Reset
+//@   trusted
+//@   modifies everything
